@@ -20,6 +20,9 @@ def designs(draw, max_stmts=6):
     names = draw(st.lists(st.sampled_from(TOP_PORTS), min_size=npi + npo, max_size=npi + npo, unique=True))
     inputs = [[n, draw(st.integers(1, 3))] for n in names[:npi]]
     outputs = [[n, draw(st.integers(1, 3))] for n in names[npi:]]
+    if inputs and draw(st.integers(0, 3)) == 0:
+        # a port listed under .inputs and under .outputs is an inout port
+        outputs.append(list(draw(st.sampled_from(inputs))))
     nbb = draw(st.integers(1, 3))
     bbn = draw(st.lists(st.sampled_from(BB_NAMES), min_size=nbb, max_size=nbb, unique=True))
     bbs = []
@@ -31,7 +34,7 @@ def designs(draw, max_stmts=6):
                     "declared": draw(st.integers(0, 3)) != 0, "before": draw(st.booleans())})
     # net tokens
     tokens = []
-    for n, w in inputs + outputs:
+    for n, w in inputs + [x for x in outputs if x not in inputs]:
         tokens.extend([[n, None]] if w == 1 else [[n, i] for i in range(w)])
     internal = draw(st.lists(st.sampled_from(NET_NAMES), min_size=1, max_size=4, unique=True))
     for n in internal:
@@ -58,7 +61,10 @@ def designs(draw, max_stmts=6):
                 continue
             s.update(model=bi, conns=draw(st.permutations(conns)) if conns else [])
         elif kind == "names":
-            s.update(ins=draw(st.lists(net, max_size=3)), out=draw(net),
+            # (now and then more than ten inputs: in_10 sorts before in_2 as text)
+            wide = draw(st.integers(0, 7)) == 0
+            s.update(ins=draw(st.lists(net, min_size=11, max_size=12) if wide else st.lists(net, max_size=3)),
+                     out=draw(net),
                      covers=draw(st.lists(st.sampled_from(COVERS), max_size=2)))
         elif kind == "latch":
             s.update(input=draw(net), output=draw(net), full=latch_full)
@@ -142,6 +148,9 @@ def in_domain(d):
                 if s["cname"] in seen:
                     return False
                 seen.add(s["cname"])
+        wi = {n: w for n, w in d["inputs"]}
+        if any(n in wi and wi[n] != w for n, w in d["outputs"]):
+            return False
         return bool(d.get("stream")) and bool(d.get("top"))
     except (KeyError, TypeError, IndexError):
         return False
@@ -151,7 +160,7 @@ def render(d):
     """-> (text, expected view, info)"""
     ch = Chooser(d["stream"])
     info = {"bus_net": 0, "conn": 0, "unconn": 0, "model_used_twice": 0, "continuation": 0, "comments": 0,
-            "undeclared_bb": 0, "bb_before_top": 0}
+            "undeclared_bb": 0, "bb_before_top": 0, "inout_port": 0}
     lines = []
 
     def comment():
@@ -197,6 +206,10 @@ def render(d):
     exp["models"][d["top"]] = {"lib": "work", "leaf": None, "ports": {
         **{n: {"dir": "IN", "w": w} for n, w in d["inputs"]},
         **{n: {"dir": "OUT", "w": w} for n, w in d["outputs"]}}}
+    both = {n for n, _ in d["inputs"]} & {n for n, _ in d["outputs"]}
+    for n in both:
+        exp["models"][d["top"]]["ports"][n]["dir"] = "INOUT"
+        info["inout_port"] = 1
 
     def attach(n, pin):
         key = (n[0], n[1] or 0)
@@ -205,7 +218,7 @@ def render(d):
         if n[1] is not None:
             info["bus_net"] += 1
 
-    for n, w in d["inputs"] + d["outputs"]:
+    for n, w in d["inputs"] + [x for x in d["outputs"] if x[0] not in both]:
         for b in range(w):
             attach([n, b if w > 1 else None], ["top", n, b])
     used_models = {}
